@@ -329,20 +329,56 @@ class NoneValue(Value):
 
 
 class MultiByteValue(Value):
-    def __init__(self, value):
+    """
+    A list of byte values (FCB 1,2,3). An element is a number, or a symbol or
+    two-term expression that is evaluated once the symbol table and the
+    addresses are known.
+    """
+    def __init__(self, value, digits=2, what="multi-byte"):
         super().__init__(value)
-        self.hex_array = []
+        self.digits = digits
         self.type = ValueType.MULTI_BYTE
         if "," not in value:
-            raise ValueTypeError("multi-byte declarations must have a comma in them")
-        values = value.split(",")
-        self.hex_array = [NumericValue(x).fit(2).hex() for x in values if x != ""]
+            raise ValueTypeError("{} declarations must have a comma in them".format(what))
+        self.elements = [self.create_element(x) for x in value.split(",") if x != ""]
+
+    def create_element(self, text):
+        try:
+            return NumericValue(text).fit(self.digits)
+        except ValueTypeError as error:
+            try:
+                element = Value.create_from_str(text)
+            except ValueTypeError:
+                raise error
+            if not (element.is_symbol() or element.is_expression()):
+                raise error
+            return element
+
+    @property
+    def hex_array(self):
+        return [x.hex() if x.is_numeric() else "0" * self.digits for x in self.elements]
 
     def hex(self, size=0):
         return "".join(self.hex_array)
 
     def hex_len(self):
-        return len(self.hex())
+        return len(self.elements) * self.digits
+
+    def resolve(self, symbol_table):
+        self.elements = [x.resolve(symbol_table) if x.is_symbol() or x.is_expression() else x for x in self.elements]
+        return self
+
+    def fix_addresses(self, statements):
+        """
+        Replaces every label and label expression by its value on the final addresses and
+        renders every element at the width of the directive.
+        """
+        for index, element in enumerate(self.elements):
+            if element.is_address():
+                element = statements[element.int].code_pkg.address
+            elif element.is_address_expression():
+                element = element.calculate_address_offset(statements)
+            self.elements[index] = element.fit(self.digits)
 
     def is_8_bit(self):
         return False
@@ -351,27 +387,10 @@ class MultiByteValue(Value):
         return False
 
 
-class MultiWordValue(Value):
+class MultiWordValue(MultiByteValue):
     def __init__(self, value):
-        super().__init__(value)
-        self.hex_array = []
+        super().__init__(value, digits=4, what="multi-word")
         self.type = ValueType.MULTI_WORD
-        if "," not in value:
-            raise ValueTypeError("multi-word declarations must have a comma in them")
-        values = value.split(",")
-        self.hex_array = [NumericValue(x).fit(4).hex() for x in values if x != ""]
-
-    def hex(self, size=0):
-        return "".join(self.hex_array)
-
-    def hex_len(self):
-        return len(self.hex())
-
-    def is_8_bit(self):
-        return False
-
-    def is_16_bit(self):
-        return False
 
 
 class StringValue(Value):
